@@ -1,0 +1,31 @@
+//go:build verif
+
+// Verification hook for the node harness of /verif (properties C03/C04, kill-at-the-answer images).
+// Add-only, no logic: VerifInstrumentFlush puts a delegating wrapper around the WAL's current segment which
+// calls a hook before and after Flush (the msync of the segment).  The harness takes the image of the WAL
+// directory inside the "pre" hook: what a power loss after that flush is guaranteed to find on disk.
+
+package wal
+
+type verifFlushRW struct {
+	ReadWriteSegment
+	hook func(point string)
+}
+
+func (s *verifFlushRW) Flush() error {
+	s.hook("cur.Flush:pre")
+	err := s.ReadWriteSegment.Flush()
+	s.hook("cur.Flush:post")
+	return err
+}
+
+// VerifInstrumentFlush wraps the current segment of the WAL (idempotent). Rollover, TruncateLog and Clear
+// install a fresh, unwrapped segment: call it again after every API call.
+func VerifInstrumentFlush(w Wal, hook func(point string)) {
+	t := w.(*wal)
+	t.Lock()
+	defer t.Unlock()
+	if _, ok := t.currentSegment.(*verifFlushRW); !ok {
+		t.currentSegment = &verifFlushRW{ReadWriteSegment: t.currentSegment, hook: hook}
+	}
+}
